@@ -224,12 +224,12 @@ def modelTrace (P : Params) (d : Bytes → Step Bytes) (evs : List Ev) : List St
       | .error => cl
     (acc.1 ++ toks, s')) ([], St.init ([], false))
 
-/-- `rl <proto> <stream> <frame lengths> <default read buffer size, 0 = not configured> <script> =>
+/-- `rl|rlnp <proto> <stream> <frame lengths> <default read buffer size, 0 = not configured> <script> =>
 <trace> <frames> <residue> <failed>`: the script (writes and stalls of the peer) is not used by the model: what the read
 loop saw is in the observed trace (`r<n>` read of n bytes, `t` read timeout, `o<len>.<cap>` hand-off of the read buffer
 to the filter, `c<e|x|l|o>` close event).  The model is run on the observed `ReadOnce` results and must reproduce the
 hand-offs (buffered length and capacity), the close, the frames, the residue and the failed flag. -/
-def rl (proto stream lens dflt : String) (impl : List String) : String :=
+def rl (netpoll : Bool) (proto stream lens dflt : String) (impl : List String) : String :=
   match frameStepOf proto accept, unhex stream, parseNats lens, dflt.toNat?, impl with
   | some d, some s, some ls, some df, [tr, fr, res, fl] =>
     match parseHexList fr, unhex res with
@@ -242,10 +242,14 @@ def rl (proto stream lens dflt : String) (impl : List String) : String :=
       | none => s!"D {sv} trace-does-not-parse"
       | some evs =>
         let dfl : Int := if df == 0 then MosnVerif.Gen.ReadLoopConn.defaultReadBufferSize else (df : Int)
-        let m := modelTrace (Params.actual dfl) d evs
+        -- netpoll mode (kind rlnp): the copies of the statement in the read-timeout timer / event-loop onRead; the timer
+        -- runs on its own goroutine, so the position of `t` among the other tokens is not exact: contents only
+        let P : Params := if netpoll then { network := "tcp", dflt := dfl, shrinks := MosnVerif.Gen.ReadLoopConn.netpollShrinks }
+          else Params.actual dfl
+        let m := modelTrace P d evs
         let c := toConn m.2
         let mt := if m.1.isEmpty then "-" else joinWith "," m.1
-        let agree := mt == tr && c.out == ifr && c.buf == ires && flag c.failed == fl
+        let agree := (netpoll || mt == tr) && c.out == ifr && c.buf == ires && flag c.failed == fl
         s!"{if agree then "A" else "D"} {sv} {mt} {hexList c.out} {hex c.buf} {flag c.failed}"
     | _, _ => "E E bad-impl"
   | _, _, _, _, _ => "E E bad-case"
@@ -258,7 +262,8 @@ def run (caseToks impl : List String) : String :=
   | ["select", scope, stream, maxp] => selectK scope stream maxp impl
   | ["h2seg", stream, lens, chunks] => h2seg stream lens chunks impl
   | ["h2cuts", stream, lens] => h2cuts stream lens impl
-  | ["rl", proto, stream, lens, dflt, _script] => rl proto stream lens dflt impl
+  | ["rl", proto, stream, lens, dflt, _script] => rl false proto stream lens dflt impl
+  | ["rlnp", proto, stream, lens, dflt, _script] => rl true proto stream lens dflt impl
   | _ => "E E unknown-kind"
 
 end MosnVerif.Drive.C07
